@@ -171,6 +171,54 @@ def _factored(v):
     return v
 
 
+ROUNDERS = {"np.ceil": "ceil", "math.ceil": "ceil", "np.floor": "floor", "math.floor": "floor", "np.trunc": "trunc", "math.trunc": "trunc",
+            "np.fix": "trunc", "np.rint": "round", "np.round": "round", "np.around": "round", "round": "round", "int": "trunc", "np.int64": "trunc",
+            "np.intp": "trunc", "np.int_": "trunc"}
+LOG2 = ("call:np.log2", "call:math.log2")
+
+
+def _log2_of_const(v):
+    """v is log2(q) for a positive rational constant q that is not a power of two -> (q, k) with 2^k < q < 2^(k+1), else None"""
+    p = fn_parts(v) if isinstance(v, F.Rat) else None
+    if p is None or p[0] not in LOG2 or len(p[1]) != 1 or not I.is_const(p[1][0]):
+        return None
+    q = I.cval(p[1][0])
+    if q <= 0:
+        return None
+    k = q.numerator.bit_length() - q.denominator.bit_length()
+    while Fraction(2) ** k > q:
+        k -= 1
+    while Fraction(2) ** (k + 1) <= q:
+        k += 1
+    return q, k
+
+
+def _round_real(kind, v):
+    """exact value of ceil / floor / trunc / round of a rational constant or of log2 of one (the binary logarithm of a rational that is
+    not a power of two is irrational: no ties), else None"""
+    from math import floor as _floor, ceil as _ceil
+    if I.is_const(v):
+        c = I.cval(v)
+        if kind == "ceil":
+            return _ceil(c)
+        if kind == "floor":
+            return _floor(c)
+        if kind == "trunc":
+            return _floor(c) if c >= 0 else _ceil(c)
+        return round(c)                          # round half to even, as numpy and Python do
+    lk = _log2_of_const(v)
+    if lk is None:
+        return None
+    q, k = lk
+    if kind == "floor":
+        return k
+    if kind == "ceil":
+        return k + 1
+    if kind == "trunc":
+        return k if k >= 0 else k + 1
+    return k + 1 if q * q > Fraction(2) ** (2 * k + 1) else k      # q > 2^(k + 1/2)
+
+
 def scalar_hook(extra=None, d=None, ell=None):
     """library calls in the scalar image of the algebra generated by one matrix: products commute, solve(a, b) = b / a, eye = 1.
     `d`: value of every norm estimate d*_loose / d*_tight of scipy's helper; `ell`: value of mf._ell by order."""
@@ -198,6 +246,28 @@ def scalar_hook(extra=None, d=None, ell=None):
             if r is not NotImplemented:
                 return r
         n = len(pos)
+        # numbers: rounding and the binary logarithm of constants are evaluated exactly (the regimes fix every norm estimate)
+        if name in ROUNDERS and n == 1 and not kw and isinstance(pos[0], F.Rat):
+            r = _round_real(ROUNDERS[name], pos[0])
+            if r is not None:
+                return F.const(r)
+        if name in ("np.log2", "math.log2") and n == 1 and not kw and I.is_const(pos[0]) and I.cval(pos[0]) > 0:
+            q = I.cval(pos[0])
+            if q.numerator & (q.numerator - 1) == 0 and q.denominator & (q.denominator - 1) == 0:
+                return F.const(q.numerator.bit_length() - q.denominator.bit_length())
+        if name.startswith("compare:") and n == 2:
+            for a_, b_, flip in ((pos[0], pos[1], False), (pos[1], pos[0], True)):
+                lk = _log2_of_const(a_)
+                if lk is not None and I.is_const(b_):
+                    k, c = lk[1], I.cval(b_)          # k < log2 q < k + 1
+                    below = True if c >= k + 1 else (False if c <= k else None)      # log2 q < c ?
+                    if below is None:
+                        return NotImplemented
+                    op = name[8:]
+                    if flip:
+                        op = {"Lt": "Gt", "LtE": "GtE", "Gt": "Lt", "GtE": "LtE"}.get(op, op)
+                    return {"Lt": below, "LtE": below, "Gt": not below, "GtE": not below, "Eq": False, "NotEq": True}.get(op, NotImplemented)
+            return NotImplemented
         if name == "getattr" and n == 2 and isinstance(pos[0], F.Rat) and isinstance(pos[1], str) and HELPER_ATTR.fullmatch(pos[1]):
             # an array (dense, sparse, np.matrix) where the Pade helper object is expected: no array type has these attributes
             return I.Crash(f"AttributeError: an array has no attribute '{pos[1]}'")
@@ -302,6 +372,46 @@ def _unmodelled(values):
         for nm, _args in I.atoms_named(v, "call:") if isinstance(v, (F.Rat, tuple)) else []:
             if nm[5:] not in KNOWN_OPAQUE and nm[5:] not in out:
                 out.append(nm[5:])
+        # the result of a loop that can be left from inside its body under a test nothing decides: not followed to a value
+        for nm in _symbols(v):
+            if "@exit" in nm and "loop left under an undecided test" not in out:
+                out.append("loop left under an undecided test")
+    return out
+
+
+def _symbols(v):
+    """names of all symbols occurring in a value (descends into the arguments of opaque applications)"""
+    out = set()
+    seen = set()
+
+    def walk_poly(p_):
+        for m in p_.t:
+            for a_, _e in m:
+                if a_ in seen:
+                    continue
+                seen.add(a_)
+                d_ = F.atom_desc(a_)
+                if d_[0] == "s":
+                    out.add(d_[1])
+                elif d_[0] == "fn":
+                    for k_ in d_[2]:
+                        if not isinstance(k_, str):
+                            walk_poly(F._poly_from_key(k_[1]))
+                            walk_poly(F._poly_from_key(k_[2]))
+                elif d_[0] in ("exp", "sin", "cos", "sqrt"):
+                    walk_poly(F._poly_from_key(d_[1]))
+
+    def walk(x):
+        if isinstance(x, F.Rat) and not is_unknown(x):
+            walk_poly(x.n)
+            walk_poly(x.d)
+        elif isinstance(x, (tuple, list)):
+            for y in x:
+                walk(y)
+    try:
+        walk(v)
+    except Exception:  # noqa
+        pass
     return out
 
 
@@ -690,17 +800,39 @@ def r2_thresholds(ctx):
         if len(ta) < 2:
             ctx.error(f"{q}: scaling power", fn, "no call of the order-13 table method found")
             continue
-        s_got = ta[1]           # (self, s[, h])
-        env = {"T": F.const(10), "X": r.A}
-        s0 = r.it.expr("max(int(np.ceil(np.log2(T / 4.25))), 0)", env)
-        env["S0"] = s0
-        want = r.it.expr("S0 + mf._ell(2 ** -S0 * X, 13)", env)
-        ok = I.same_value(s_got, want)
-        verdict(ctx, ok, f"{q}: s = max(ceil(log2(eta_5/theta_13)), 0) + ell(2^-s A, 13) with theta_13 = 4.25", tc.node,
-                {"got": repr(s_got)[:300], "want": repr(want)[:300]}, [s_got, want])
         if q == "expmint":
             ok = len(ta) >= 3 and I.same_value(ta[2], r.h)
             verdict(ctx, ok, f"{q}: the order-13 table receives the step h (which it scales by 2^-s itself)", tc.node, repr(ta[2:])[:200], ta[2:3])
+        # the scaling power, decided on numbers: s = max(ceil(log2(eta_5 / theta_13)), 0) + ell(2^-s A, 13), eta_5 = min(eta_3, eta_4),
+        # eta_3 = max(d6, d8), eta_4 = max(d8, d10) (Al-Mohy & Higham, theta_13 = 4.25).  The estimates are placed so that the rounding
+        # (just below / above 4 theta_13), the clamp at 0 and the choice of the smaller of eta_3, eta_4 each show in the value.
+        big, tiny = Fraction(10), THETA[3] * (1 - EPS)
+        for plabel, dv in (("every estimate is 10", {"d4": big, "d6": big, "d8": big, "d10": big}),
+                           ("every estimate just below 4 theta_13", dict.fromkeys(("d4", "d6", "d8", "d10"), 4 * THETA[13] * (1 - EPS))),
+                           ("every estimate just above 4 theta_13", dict.fromkeys(("d4", "d6", "d8", "d10"), 4 * THETA[13] * (1 + EPS))),
+                           ("d4 = d6 = 10, d8 and d10 tiny (eta_4 < theta_13 < eta_3: no scaling)", {"d4": big, "d6": big, "d8": tiny, "d10": tiny}),
+                           ("d4 = d6 = 10, d8 tiny, d10 = 40 (eta_3 < eta_4)", {"d4": big, "d6": big, "d8": tiny, "d10": Fraction(40)})):
+            eta5 = min(max(dv["d6"], dv["d8"]), max(dv["d8"], dv["d10"]))
+            k = 0
+            while THETA[13] * 2 ** k < eta5:
+                k += 1                                  # the least k >= 0 with eta_5 <= theta_13 2^k
+            title = f"{q}: s = max(ceil(log2(eta_5/theta_13)), 0) + ell(2^-s A, 13) with theta_13 = 4.25, eta_5 = min(max(d6, d8), max(d8, d10)): {plabel}"
+            rp = r if dv["d4"] == big and dv["d10"] == big else Run(ctx, q, dv)
+            tcp = rp.table_call()
+            if _aborted(ctx, title, fn, rp.ret):
+                continue
+            tap = tcp.ordered() if tcp is not None else []
+            if rp.order != 13 or len(tap) < 2:
+                ctx.error(title, fn, f"the order-13 table is not reached in this regime (order {rp.order}): {rp.ret!r}"[:300])
+                continue
+            s_got = tap[1]           # (self, s[, h])
+            want = rp.it.expr("S0 + mf._ell(2 ** -S0 * X, 13)", {"S0": F.const(k), "X": rp.A})
+            ok = I.same_value(s_got, want)
+            if not ok and isinstance(s_got, F.Rat) and not is_unknown(s_got) and \
+                    any(I.atoms_named(s_got, "call:" + nm_) for nm_ in list(ROUNDERS) + ["np.log2", "math.log2", "np.log", "math.log", "math.frexp", "np.frexp"]):
+                ctx.error(title, tcp.node, f"the scaling power is computed in a way the rule cannot evaluate to a number: {s_got!r}"[:300])
+                continue
+            verdict(ctx, ok, title, tcp.node, {"got": repr(s_got)[:300], "want": repr(want)[:300]}, [s_got, want])
     # getEPQ: switch variable, switch constant, arguments
     fn = ctx.src.func(EXPM, "getEPQ")
     A, h, order, B, half = (F.sym(n_) for n_ in ("A", "h", "order", "B", "half"))
